@@ -143,6 +143,7 @@ type invRec struct {
 	ended             bool
 	v                 any
 	e                 error
+	ecode             int
 }
 
 type taskObs struct {
@@ -206,14 +207,17 @@ func showErr(e error) string {
 	switch {
 	case e == nil:
 		return "nil"
-	case errors.Is(e, context.DeadlineExceeded):
+	case e == context.DeadlineExceeded:
 		return "DE"
+	case e == context.Canceled:
+		return "CANCELED"
 	case ants.IsDiscardError(e):
 		return "DISC"
-	case errors.As(e, &he):
+	case errors.As(e, &he) && sameErr(e, he):
 		return "E" + strconv.Itoa(he.code)
 	}
-	return "ERR?" + strings.ReplaceAll(e.Error(), " ", "_")
+	r := strings.NewReplacer(" ", "_", ":", "_", ",", "_", "|", "_", "@", "_", "[", "_", "]", "_")
+	return "ERR?" + r.Replace(e.Error())
 }
 
 func showVal(v any) string {
@@ -222,6 +226,9 @@ func showVal(v any) string {
 	}
 	if i, ok := v.(int); ok {
 		return strconv.Itoa(i)
+	}
+	if p, ok := v.(*int); ok && p == nil {
+		return "TN"
 	}
 	return "VAL?"
 }
@@ -250,18 +257,85 @@ func behOf(t *taskSpec, j int) beh {
 	return beh{0, true, 1, 0}
 }
 
+// handler outcome kinds (error codes / value codes of the script):
+//   err 0 nil | 101 fmt.Errorf("...: %w", context.DeadlineExceeded) | 102 context.Canceled | 103 context.DeadlineExceeded itself
+//       104 fmt.Errorf("...: %w", context.Canceled) | 105 a custom type whose Is(DeadlineExceeded) is true | else herr{code}
+//   val 0 nil | 900001 a typed nil (*int)(nil) inside the interface | else the int itself
+// Observations render errors by IDENTITY: an error is shown with the label of the handler invocation that returned this
+// very value; an error that merely errors.Is-matches shows as the bare sentinel / "ERR?…".
+const typedNilCode = 900001
+
+type isDE struct{ code int }
+
+func (e *isDE) Error() string        { return "ISDE" + strconv.Itoa(e.code) }
+func (e *isDE) Is(target error) bool { return target == context.DeadlineExceeded }
+
 func mkErr(code int) error {
-	if code == 0 {
+	switch code {
+	case 0:
 		return nil
+	case 101:
+		return fmt.Errorf("h101 own deadline: %w", context.DeadlineExceeded)
+	case 102:
+		return context.Canceled
+	case 103:
+		return context.DeadlineExceeded
+	case 104:
+		return fmt.Errorf("h104 upstream: %w", context.Canceled)
+	case 105:
+		return &isDE{105}
 	}
 	return herr{code}
+}
+
+func errLabel(code int) string {
+	switch code {
+	case 0:
+		return "nil"
+	case 101:
+		return "W101(DE)"
+	case 102:
+		return "CANCELED"
+	case 103:
+		return "DE"
+	case 104:
+		return "W104(CANCELED)"
+	case 105:
+		return "ISDE105"
+	}
+	return "E" + strconv.Itoa(code)
 }
 
 func mkVal(v int) any {
 	if v == 0 {
 		return nil
 	}
+	if v == typedNilCode {
+		return (*int)(nil)
+	}
 	return v
+}
+
+func sameErr(a, b error) (same bool) {
+	defer func() {
+		if recover() != nil {
+			same = false
+		}
+	}()
+	return a == b
+}
+
+// showErrOf renders e by identity with the errors returned by the handler invocations `invs` of the task
+func showErrOf(e error, invs []*invRec) string {
+	if e == nil {
+		return "nil"
+	}
+	for _, rec := range invs {
+		if rec.ended && rec.e != nil && sameErr(rec.e, e) {
+			return errLabel(rec.ecode)
+		}
+	}
+	return showErr(e)
 }
 
 func runScen(sc *scen) string {
@@ -324,6 +398,7 @@ func runScen(sc *scen) string {
 					b := behOf(t, j)
 					var v any
 					var e error
+					ecode := b.e
 					if b.hon {
 						tm := time.NewTimer(time.Duration(b.dur))
 						select {
@@ -331,7 +406,7 @@ func runScen(sc *scen) string {
 							v, e = mkVal(b.v), mkErr(b.e)
 						case <-ctx.Done():
 							tm.Stop()
-							v, e = nil, herr{999}
+							v, e, ecode = nil, herr{999}, 999
 						}
 					} else {
 						if b.dur > 0 {
@@ -341,7 +416,7 @@ func runScen(sc *scen) string {
 					}
 					r.mu.Lock()
 					r.running--
-					rec.end, rec.ended, rec.v, rec.e = r.rel(), true, v, e
+					rec.end, rec.ended, rec.v, rec.e, rec.ecode = r.rel(), true, v, e, ecode
 					r.mu.Unlock()
 					return v, e
 				}
@@ -349,7 +424,7 @@ func runScen(sc *scen) string {
 				if t.cb {
 					opts = append(opts, ants.WithError(func(err error) {
 						r.mu.Lock()
-						r.obs[k].onerr = append(r.obs[k].onerr, fmt.Sprintf("%s@%d", showErr(err), r.rel()))
+						r.obs[k].onerr = append(r.obs[k].onerr, fmt.Sprintf("%s@%d", showErrOf(err, r.obs[k].invs), r.rel()))
 						r.mu.Unlock()
 					}))
 				}
@@ -392,7 +467,7 @@ func runScen(sc *scen) string {
 		var iv []string
 		for _, rec := range o.invs {
 			if rec.ended {
-				iv = append(iv, fmt.Sprintf("%d:%d:%d:%s:%s", rec.begin, rec.start, rec.end, showVal(rec.v), showErr(rec.e)))
+				iv = append(iv, fmt.Sprintf("%d:%d:%d:%s:%s", rec.begin, rec.start, rec.end, showVal(rec.v), errLabel(rec.ecode)))
 			} else {
 				iv = append(iv, fmt.Sprintf("%d:%d:-:-", rec.begin, rec.start))
 			}
@@ -417,7 +492,7 @@ func runScen(sc *scen) string {
 				kind = "dis"
 			}
 			fmt.Fprintf(&sb, "len=%d %s ret=%d inv=[%s] onerr=[%s] get=%s:%s@%d get2=%s:%s err=%s", o.lenAt, kind, o.ret, invS, onS,
-				showVal(o.getV), showErr(o.getE), o.getT, showVal(v2), showErr(e2), showErr(e3))
+				showVal(o.getV), showErrOf(o.getE, o.invs), o.getT, showVal(v2), showErrOf(e2, o.invs), showErrOf(e3, o.invs))
 		}
 	}
 	fmt.Fprintf(&sb, " # max=%d", r.maxRun)
